@@ -35,8 +35,9 @@ def main(optargs=None):
     stdout_handler = logging.StreamHandler(sys.stdout)
     stdout_handler.setFormatter(logging.Formatter("%(message)s"))
     logger.addHandler(stdout_handler)
-    optargs = optargs if optargs is not None else []
-    options = loadOptions(*optargs)
+    # hand the argument list over as one list (None: use sys.argv); it used
+    # to be splatted into loadOptions(), which takes a single list
+    options = loadOptions(list(optargs) if optargs else None)
     pdbfiles = options.filenames
     parameters = read_parameter_file(options.parameters, Parameters())
     for pdbfile in pdbfiles:
